@@ -210,15 +210,15 @@ impl RenderTable {
         let mut col_positions = BTreeSet::new();
         col_positions.insert(0);
         for row in itr: &rows
-            invariant rows@ == rows0, same_seq(itr.seq(), rows0), has_positions(col_positions@, rows0, itr.index@), //@w
+            invariant rows@ == rows0, same_seq(itr.seq(), rows0), has_positions(col_positions@, rows0, itr.index@), //@w @C03 @C05 @C06 #new_loop_invariant
         {
             let ghost ri = itr.index@; //@w
             let mut col = 0usize;
             for cell in itc: &row.cells
                 invariant //@w
-                    rows@ == rows0, 0 <= ri < rows0.len(), *row == rows0[ri], same_seq(itc.seq(), row.cells@), //@w
-                    has_positions(col_positions@, rows0, ri), col == pos_of(row.cells@, itc.index@), //@w
-                    forall|k: int| 0 <= k <= itc.index@ ==> col_positions@.contains(#[trigger] pos_of(row.cells@, k) as usize), //@w
+                    rows@ == rows0, 0 <= ri < rows0.len(), *row == rows0[ri], same_seq(itc.seq(), row.cells@), //@w @C03 @C05 @C06 #new_loop_invariant
+                    has_positions(col_positions@, rows0, ri), col == pos_of(row.cells@, itc.index@), //@w @C03 @C05 @C06 #new_loop_invariant
+                    forall|k: int| 0 <= k <= itc.index@ ==> col_positions@.contains(#[trigger] pos_of(row.cells@, k) as usize), //@w @C03 @C05 @C06 #new_loop_invariant
             {
                 proof { lemma_pos_bound(row.cells@, itc.index@ + 1); } //@w
                 // Huge colspans (e.g. usize::MAX) must not overflow.
@@ -233,27 +233,27 @@ impl RenderTable {
 
         for ri in itr2: 0..rows.len()
             invariant //@w
-                itr2.iter.end == n, rows@.len() == n, n == rows0.len(), rank_ok(colmap, posset), has_positions(posset, rows0, n as int), //@w
-                forall|i: int, j: int| 0 <= i < n && 0 <= j < rows0[i].cells@.len() ==> (#[trigger] rows0[i].cells@[j]).colspan >= 1, //@w
-                forall|i: int| 0 <= i < n ==> (#[trigger] rows0[i]).cells@.len() <= 0x10000, //@w
-                forall|i: int| ri <= i < n ==> #[trigger] rows@[i] == rows0[i], //@w
-                forall|i: int| 0 <= i < ri ==> (#[trigger] rows@[i]).col_sizes == rows0[i].col_sizes && rows@[i].style == rows0[i].style && row_done(colmap, rows0[i].cells@, rows@[i].cells@, rows0[i].cells@.len() as int), //@w
+                itr2.iter.end == n, rows@.len() == n, n == rows0.len(), rank_ok(colmap, posset), has_positions(posset, rows0, n as int), //@w @C03 @C05 @C06 #new_loop_invariant
+                forall|i: int, j: int| 0 <= i < n && 0 <= j < rows0[i].cells@.len() ==> (#[trigger] rows0[i].cells@[j]).colspan >= 1, //@w @C03 @C05 @C06 #new_loop_invariant
+                forall|i: int| 0 <= i < n ==> (#[trigger] rows0[i]).cells@.len() <= 0x10000, //@w @C03 @C05 @C06 #new_loop_invariant
+                forall|i: int| ri <= i < n ==> #[trigger] rows@[i] == rows0[i], //@w @C03 @C05 @C06 #new_loop_invariant
+                forall|i: int| 0 <= i < ri ==> (#[trigger] rows@[i]).col_sizes == rows0[i].col_sizes && rows@[i].style == rows0[i].style && row_done(colmap, rows0[i].cells@, rows@[i].cells@, rows0[i].cells@.len() as int), //@w @C03 @C05 @C06 #new_loop_invariant
         {
             let mut pos = 0usize;
             let mut mapped_pos: usize = 0;
             let ghost oc = rows0[ri as int].cells@; //@w
             for ci in itc2: 0..rows[ri].cells.len()
                 invariant //@w
-                    itc2.iter.end == oc.len(), oc == rows0[ri as int].cells@, 0 <= ri < n, //@w
-                    itr2.iter.end == n, rows@.len() == n, n == rows0.len(), rank_ok(colmap, posset), has_positions(posset, rows0, n as int), //@w
-                    forall|i: int, j: int| 0 <= i < n && 0 <= j < rows0[i].cells@.len() ==> (#[trigger] rows0[i].cells@[j]).colspan >= 1, //@w
-                    forall|i: int| 0 <= i < n ==> (#[trigger] rows0[i]).cells@.len() <= 0x10000, //@w
-                    forall|i: int| ri < i < n ==> #[trigger] rows@[i] == rows0[i], //@w
-                    forall|i: int| 0 <= i < ri ==> (#[trigger] rows@[i]).col_sizes == rows0[i].col_sizes && rows@[i].style == rows0[i].style && row_done(colmap, rows0[i].cells@, rows@[i].cells@, rows0[i].cells@.len() as int), //@w
-                    rows@[ri as int].col_sizes == rows0[ri as int].col_sizes && rows@[ri as int].style == rows0[ri as int].style, //@w
-                    row_done(colmap, oc, rows@[ri as int].cells@, ci as int), //@w
-                    forall|j: int| ci <= j < oc.len() ==> #[trigger] rows@[ri as int].cells@[j] == oc[j], //@w
-                    pos == pos_of(oc, ci as int), mapped_pos == colmap.rk(pos), //@w
+                    itc2.iter.end == oc.len(), oc == rows0[ri as int].cells@, 0 <= ri < n, //@w @C03 @C05 @C06 #new_loop_invariant
+                    itr2.iter.end == n, rows@.len() == n, n == rows0.len(), rank_ok(colmap, posset), has_positions(posset, rows0, n as int), //@w @C03 @C05 @C06 #new_loop_invariant
+                    forall|i: int, j: int| 0 <= i < n && 0 <= j < rows0[i].cells@.len() ==> (#[trigger] rows0[i].cells@[j]).colspan >= 1, //@w @C03 @C05 @C06 #new_loop_invariant
+                    forall|i: int| 0 <= i < n ==> (#[trigger] rows0[i]).cells@.len() <= 0x10000, //@w @C03 @C05 @C06 #new_loop_invariant
+                    forall|i: int| ri < i < n ==> #[trigger] rows@[i] == rows0[i], //@w @C03 @C05 @C06 #new_loop_invariant
+                    forall|i: int| 0 <= i < ri ==> (#[trigger] rows@[i]).col_sizes == rows0[i].col_sizes && rows@[i].style == rows0[i].style && row_done(colmap, rows0[i].cells@, rows@[i].cells@, rows0[i].cells@.len() as int), //@w @C03 @C05 @C06 #new_loop_invariant
+                    rows@[ri as int].col_sizes == rows0[ri as int].col_sizes && rows@[ri as int].style == rows0[ri as int].style, //@w @C03 @C05 @C06 #new_loop_invariant
+                    row_done(colmap, oc, rows@[ri as int].cells@, ci as int), //@w @C03 @C05 @C06 #new_loop_invariant
+                    forall|j: int| ci <= j < oc.len() ==> #[trigger] rows@[ri as int].cells@[j] == oc[j], //@w @C03 @C05 @C06 #new_loop_invariant
+                    pos == pos_of(oc, ci as int), mapped_pos == colmap.rk(pos), //@w @C03 @C05 @C06 #new_loop_invariant
             {
                 proof { //@w
                     lemma_pos_bound(oc, ci as int + 1); lemma_pos_mono(oc, ci as int, ci as int + 1); //@w
